@@ -1,18 +1,18 @@
 SPECIFICATION Spec
 CONSTANTS
   Recorded = FALSE
-  Fault = "drop_last_share"
-  Lims <- LimOn
+  Fault = "none"
+  Lims <- LimOff
   Policies <- Both
   Ratings <- R123
   ConvStarts <- CS2
   BelStarts <- BS3
   MinUnits = 1
   MaxUnits = 2
-  MaxSteps = 1
-  WarmClasses <- WarmFew
-  Classes <- AllClasses
-  ThinMod = 1000000
+  MaxSteps = 2
+  WarmClasses <- NWarm
+  Classes <- NClasses
+  ThinMod = 2
 INVARIANT TypeOK
 INVARIANT Sum
 INVARIANT RangePos
@@ -21,4 +21,5 @@ INVARIANT Zero
 INVARIANT NoOpposite
 INVARIANT Regen
 INVARIANT BatteryFirst
+INVARIANT EmitThin
 CHECK_DEADLOCK FALSE
